@@ -110,6 +110,11 @@ def check(ctx):
     sg = [t for t in ast.walk(tsl) if isinstance(t, ast.Tuple) and t.elts and eqv(t.elts[0], "self._shuffle_group") and any(eqv(a, "stage") for a in t.elts)]
     ok = len(sg) == 1 and [unparse(a) for a in sg[0].elts[3:]] == ["self.partitioning_index", "stage", "nsplits", "npartitions_input", "self.ignore_index", "npartitions"]
     ctx.ob("ARG.task-shuffle.stage-base", tsl, "the staged shuffle_group task receives npartitions_input (the base of the digit decomposition), not the number of padded stage inputs", ok, "" if ok else "with a partition increase and an input count that is no power of nsplits rows are routed to stage outputs that do not exist: rows are silently dropped")
+    # ---------------- sort_values: the partition assignment gets the same direction AND the same place for missing values as the per-partition sort
+    svl = sv.func("SortValues._lower")
+    pc = [c for c in calls(svl, "_SetPartitionsPreSetIndex")]
+    ok = len(pc) == 1 and kwarg(pc[0], "ascending") is not None and eqv(kwarg(pc[0], "ascending"), "self._divisions_ascending") and kwarg(pc[0], "na_position") is not None and eqv(kwarg(pc[0], "na_position"), "self.na_position")
+    ctx.ob("ARG.sort.partition-na-position", svl, "_SetPartitionsPreSetIndex(..., ascending=self._divisions_ascending, na_position=self.na_position)", ok, "" if ok else "missing values are routed to the last partition whatever na_position says: with na_position='first' they end up in the middle of the result")
 
 
 VARIANTS = [
